@@ -1,20 +1,18 @@
-use delaunay::core::delaunay_triangulation::{ConstructionOptions, DelaunayTriangulation, InsertionOrderStrategy};
-use delaunay::core::triangulation::TopologyGuarantee;
+use delaunay::core::delaunay_triangulation::DelaunayTriangulation;
 use delaunay::core::vertex::Vertex;
-use delaunay::geometry::kernel::FastKernel;
+use delaunay::geometry::kernel::{FastKernel, RobustKernel};
 use delaunay::geometry::point::Point;
 use delaunay::geometry::traits::coordinate::Coordinate;
 fn main() {
-    let pts: Vec<[f64; 4]> = vec![[0.,2.,0.,0.],[2.,0.,0.,0.],[0.,0.,0.,2.],[2.,1.,-1.,-3.],[-1.,-1.,1.,-1.],[0.,-2.,0.,0.],[-2.,0.,0.,0.],[0.,0.,0.,-2.],[0.,0.,2.,0.],[0.,0.,-2.,0.]];
-    let vs: Vec<Vertex<f64, i32, 4>> = pts.iter().enumerate().map(|(i, p)| Vertex::new_with_uuid(Point::new(*p), uuid::Builder::from_random_bytes((1000u128 + i as u128).to_le_bytes()).into_uuid(), Some(i as i32))).collect();
-    for g in [TopologyGuarantee::Pseudomanifold, TopologyGuarantee::PLManifold] {
-        for order in [InsertionOrderStrategy::Hilbert, InsertionOrderStrategy::Input, InsertionOrderStrategy::Morton, InsertionOrderStrategy::Lexicographic] {
-            let o = ConstructionOptions::default().with_insertion_order(order);
-            let r = DelaunayTriangulation::<FastKernel<f64>, i32, i32, 4>::with_topology_guarantee_and_options(&FastKernel::new(), &vs, g, o);
-            match r {
-                Ok(dt) => println!("{g:?} {order:?}: Ok nv={} nc={} tri.is_valid={:?} dt.validate={:?}", dt.number_of_vertices(), dt.number_of_cells(), dt.as_triangulation().is_valid().map_err(|e| format!("{e}").chars().take(400).collect::<String>()), dt.validate().map_err(|e| format!("{e}").chars().take(160).collect::<String>())),
-                Err(e) => println!("{g:?} {order:?}: Err {}", format!("{e}").chars().take(100).collect::<String>()),
-            }
-        }
-    }
+    let pts: Vec<[f64; 3]> = vec![[4.,-2.,6.],[8.,-4.,4.],[0.,-1.,6.],[6.,-3.,-5.],[-4.,-5.,-5.],[5.,-4.,8.],[-5.,4.,6.],[3.,3.,5.]];
+    let vs: Vec<Vertex<f64, i32, 3>> = pts.iter().enumerate().map(|(i, p)| Vertex::new_with_uuid(Point::new(*p), uuid::Builder::from_random_bytes((1000u128 + i as u128).to_le_bytes()).into_uuid(), Some(i as i32))).collect();
+    let sig = |dt: &DelaunayTriangulation<FastKernel<f64>, i32, i32, 3>| { let mut c: Vec<Vec<i32>> = dt.cells().map(|(_, c)| { let mut v: Vec<i32> = c.vertices().iter().map(|k| dt.tds().get_vertex_by_key(*k).unwrap().data.unwrap()).collect(); v.sort(); v }).collect(); c.sort(); c };
+    let b = DelaunayTriangulation::<FastKernel<f64>, i32, i32, 3>::with_kernel(&FastKernel::new(), &vs).unwrap();
+    println!("batch  : {:?} valid={:?}", sig(&b), b.validate().is_ok());
+    let br = DelaunayTriangulation::<RobustKernel<f64>, i32, i32, 3>::with_kernel(&RobustKernel::new(), &vs).unwrap();
+    println!("batchR : cells={} valid={:?}", br.number_of_cells(), br.validate().is_ok());
+    let mut w = DelaunayTriangulation::<FastKernel<f64>, i32, i32, 3>::with_empty_kernel(FastKernel::new());
+    for v in &vs { let r = w.insert_with_statistics(*v); println!("  insert {:?}: {:?} cells={} viol={:?} is_valid={:?}", v.data, r.map(|(o, s)| (format!("{o:?}").chars().take(20).collect::<String>(), s.attempts)), w.number_of_cells(), delaunay::core::util::find_delaunay_violations(w.tds(), None).map(|v| v.len()), w.is_valid().is_ok()); }
+    println!("increm : {:?} valid={:?} viol={:?}", sig(&w), w.validate().map_err(|e| format!("{e}").chars().take(120).collect::<String>()), delaunay::core::util::find_delaunay_violations(w.tds(), None).map(|v| v.len()));
+    for (_, v) in w.vertices() { println!("   v{:?} {:?}", v.data, v.point().coords()); }
 }
